@@ -32,6 +32,11 @@ def _coord_alphabet(salt):
             (lo, hi, lo + 0.005 * RHOBEG, "two/near_lo"), (lo, hi, hi - 0.005 * RHOBEG, "two/near_hi"),
             (lo, hi, lo - 0.7, "two/below"), (lo, hi, hi + 0.7, "two/above"),
         ]
+        if (lo, hi) == (PAIRS[0][0] + e, PAIRS[0][1] + e):
+            # infeasible by less than any tolerance a comparison might use (wave j: with projections the box is one more
+            # projection and the ordinary clamp of x0 is switched off)
+            out += [(lo, hi, float(np.nextafter(lo, -np.inf)), "two/ulp_below"), (lo, hi, hi + 1e-9, "two/hair_above"),
+                    (lo, hi, lo - 4e-6, "two/hair_below")]
     lo, hi = PAIRS[0][0] + e, PAIRS[0][1] + e
     out += [(lo, None, lo + 0.41, "lower/interior"), (lo, None, lo, "lower/on"), (lo, None, float(np.nextafter(lo, np.inf)), "lower/ulp"),
             (lo, None, lo + 0.02 * RHOBEG, "lower/near"), (lo, None, lo - 0.5, "lower/below")]
@@ -42,6 +47,7 @@ def _coord_alphabet(salt):
 
 
 REDUCED_TAGS = ["two/interior", "two/on_hi", "two/near_lo", "lower/below", "upper/near", "free"]
+HAIR_TAGS = ["two/ulp_below", "two/hair_above", "two/hair_below"]
 
 MODES = {
     "default": {},
@@ -55,6 +61,8 @@ MODES = {
     "randinit": {"user_params": {"init.random_initial_directions": True}},
     "noise": {"objfun_has_noise": True, "memo": False},
     "l1": {"reg": {"r": "l1", "lam": 0.1}, "maxfun": 25},
+    # an inactive user projection: the bounds are then enforced through the projection machinery instead of the box code
+    "proj": {"sets_ball_radius": 50.0},
 }
 
 
@@ -74,6 +82,8 @@ def _mk(prob, n, coords, mode, scaling, salt, maxfun=60):
     for k in ("nsamples", "objfun_has_noise", "reg"):
         if k in m:
             cfg[k] = m[k]
+    if "sets_ball_radius" in m:
+        cfg["sets"] = [{"t": "ball", "c": [0.0] * n, "r": m["sets_ball_radius"]}]
     return cfg
 
 
@@ -89,13 +99,13 @@ def _configs(tier, salts):
                 seen.add(c[3])
                 red2.append(c)
         red = red2
-        modes = list(MODES) if salt == 0 else ["default", "soft", "momentum"]
+        modes = list(MODES) if salt == 0 else ["default", "soft", "momentum", "proj"]
         for mode in modes:
             probs2 = ["rosen", "nzr"] if mode != "l1" else ["nzr"]
             # n = 1
             if mode not in ("l1",):
                 for c in alpha:
-                    for sc in ([False, True] if c[3].startswith("two") else [False]):
+                    for sc in ([False, True] if c[3].startswith("two") and mode != "proj" else [False]):
                         out.append((_mk("one", 1, [c], mode, sc, salt, maxfun=40), {"depth": 0}))
             # n = 2
             for prob in probs2:
@@ -109,11 +119,19 @@ def _configs(tier, salts):
                     combos = [(a, b) for a in alpha for b in alpha]
                 for a, b in combos:
                     two = a[3].startswith("two") and b[3].startswith("two")
-                    for sc in ([False, True] if two and mode != "l1" else [False]):
+                    for sc in ([False, True] if two and mode not in ("l1", "proj") else [False]):
                         plan = {"depth": 0}
                         if tier == "thorough" and salt == 0 and mode in ("default", "soft") and a[3] in REDUCED_TAGS and b[3] in REDUCED_TAGS:
                             plan = {"depth": 1, "letters": ["x0.3", "x3"]}
                         out.append((_mk(prob, 2, [a, b], mode, sc, salt), plan))
+            # scaling requested although a side is missing: the solver ignores the request (with a warning) and must still
+            # honour the bounds that are there
+            if mode in ("default", "soft") and salt == 0:
+                for a, b in [(a, b) for a in red for b in red]:
+                    if not (a[3].startswith("two") and b[3].startswith("two")):
+                        cfg = _mk("rosen", 2, [a, b], mode, True, salt)
+                        cfg["tag_place"] = cfg["tag_place"] + ["scaling_ignored"]
+                        out.append((cfg, {"depth": 0}))
             # n = 3 (thorough)
             if tier == "thorough" and mode in ("default", "npt2n1", "soft", "momentum", "growing") and salt in (0, 1):
                 for a, b, c in itertools.product(red, red, red):
